@@ -37,6 +37,14 @@ func runC12(r *fw.Run, p *fw.Program) {
 	c12BufRoot(r, p)
 	c12Name(r, p)
 	c12JQ(r, p)
+	// names are unique among struct siblings (else getpath(path) finds the first one): AddChild's duplicate test is fatal
+	{
+		sc := r.Scratch()
+		runC03(sc, p)
+		r.Import(sc, "C03.addchild", "C12.unique", "AddChild links the parent and refuses a duplicate struct field name with a no-return arm, keeping ByName and Children together: a path names at most one value (C03.addchild obligations)", 3, nil)
+	}
+	// a user field named like an extkey must not shadow navigation, and vice versa: layering helper decides every return
+	c08KeyLayerAs(r, p, "C12.layer")
 }
 
 // c12KindValue returns the constant of interp.decodeValueValue as rendered by c12AP.
